@@ -298,6 +298,17 @@ func runMultiAsset[T maNum](rt *rapid.T, rec *evi.Recorder, kind string) {
 				b = append(b, maEntry{p, 0, new(big.Int)})
 			}
 		}
+	case 2: // b cancels a random subset of a so that a+b hits zero on those keys
+		if kind != "uint64" {
+			b = nil
+			for _, e := range a {
+				if rapid.Bool().Draw(rt, "cancel") {
+					b = append(b, maEntry{e.policy, e.name, new(big.Int).Neg(e.qty)})
+				} else {
+					b = append(b, maEntry{e.policy, e.name, genQty(rt, kind)})
+				}
+			}
+		}
 	case 1: // c = -b on the shared keys so sums hit zero
 		c = nil
 		for _, e := range b {
